@@ -483,12 +483,13 @@ impl<T: Clone + Into<Obj> + Display + Debug + 'static + MaybeSync + MaybeSend> S
         Box::new(self.clone())
     }
     fn len(&self) -> Option<usize> {
-        None
+        Some(self.0.len().saturating_sub(self.1))
     }
     fn force(&self) -> NRes<Vec<Obj>> {
-        Err(NErr::value_error(
-            "Cannot force repeat because it's infinite".to_string(),
-        ))
+        Ok(self.0[self.1.min(self.0.len())..]
+            .iter()
+            .map(|x| x.clone().into())
+            .collect())
     }
     // fn pythonic_index_isize...
     // fn pythonic_slice...
